@@ -41,6 +41,33 @@ def run_case(world_pack, cfg, case, seed, pid=PID):
     def v(clause, n, what):
         viol.append(("%s/%s:%s:%s:%s" % (pid, clause, mode, esb.len_class(dyn, pl, n), case["buftype"]), what))
 
+    idiom = case.get("rx_idiom", "full")
+    if case.get("rx_pre"):
+        # receiver-side history before the judged traffic: an earlier payload (of another length where the mode allows it)
+        # was looked at but not read in the usual way - every call is documented API
+        kind, _, plen = case["rx_pre"].partition(":")
+        if kind != "any-empty":
+            a.send(mkbuf(int(plen), seed, 77, "bytes"))
+            w.advance(2 * link.MS)
+            if not rb.rx_fifo:
+                raise HarnessError("pre-history payload not received")
+        if kind == "any+flush":
+            b.any()
+            b.flush_rx()
+        elif kind == "avail+any+flush":
+            b.available()
+            b.any()
+            b.flush_rx()
+        elif kind == "any+readn":
+            b.read(b.any())
+        elif kind == "any+read+any":  # the length of an EMPTY FIFO was asked for after the read
+            b.any()
+            b.read()
+            b.any()
+        elif kind == "any-empty":
+            b.any()
+        if rb.rx_fifo:
+            raise HarnessError("pre-history left a payload in the RX FIFO")
     exc = None
     sent_upto = 0
     mark = len(ra.spilog)
@@ -59,7 +86,7 @@ def run_case(world_pack, cfg, case, seed, pid=PID):
             burst_got = []
             for _ in range(400):
                 a.update()
-                burst_got += link.drain(b)
+                burst_got += link.drain(b, idiom=idiom)
                 if not ra.tx_fifo and not ra.in_txn:
                     break
         elif case["container"]:
@@ -97,7 +124,7 @@ def run_case(world_pack, cfg, case, seed, pid=PID):
         if link.tx_payload_cmds(ra, mark) or len(w.airlog) > airmark or ra.tx_fifo:
             v("valueerror-leak", nbad, "ValueError raised but a payload reached the radio")
     w.advance(3 * link.MS)
-    got = link.drain(b)
+    got = link.drain(b, idiom=idiom)
     if rets is not None:
         got = burst_got + got
         for i, (r, full) in enumerate(zip(rets, full_at_call)):
@@ -262,6 +289,19 @@ def w_perpipe(item, rep):
         _do_cases(cfg, cases, seed, rep, "perpipe", pid)
 
 
+def w_rxhist(item, rep):
+    cfg, seed, pid = item
+    cases = []
+    for pre in ("any+flush", "avail+any+flush", "any+readn", "any+read+any", "any-empty"):
+        for plen in ((3, 32) if pre != "any-empty" else (0,)):
+            for idiom in ("bare", "full"):
+                for lens in ([1], [5], [32], [5, 32, 1]):
+                    cases.append(dict(lens=lens, buftype="bytes", call="send", container=None, noack=False, rx_pre="%s:%d" % (pre, plen), rx_idiom=idiom))
+    for lens in ([1], [32], [5, 32, 1], [32, 1]):
+        cases.append(dict(lens=lens, buftype="bytearray", call="send", container=None, noack=False, rx_idiom="bare"))
+    _do_cases(cfg, cases, seed, rep, "rxhist", pid)
+
+
 def w_burst(item, rep):
     cfg, seed, pid, lens3 = item
     cases = []
@@ -346,6 +386,11 @@ def run_link(tier, seed, rep, tx_cls="full", rx_cls="full", pid=PID, only=None):
         pmap(w_perpipe, perpipe, rep)
     if not only or "burst" in only:
         pmap(w_burst, burst, rep)
+    if not only or "rxhist" in only:
+        fa_ = "busio" if tx_cls == "lite" else "spidev"
+        fb_ = "busio" if rx_cls == "lite" else "spidev"
+        b_ = dict(tx_cls=tx_cls, rx_cls=rx_cls, front_a=fa_, front_b=fb_, addr_salt=seed)
+        pmap(w_rxhist, [(link.default_cfg(dyn=d_, pl=p_, pipe=pp, **b_), seed, pid) for d_, p_, pp in ((True, 32, 1), (True, 32, 0), (False, 8, 1), (False, 32, 5))], rep)
     if not only or "bidir" in only:
         fa = "busio" if tx_cls == "lite" else "spidev"
         fb = "busio" if rx_cls == "lite" else "spidev"
@@ -371,7 +416,7 @@ def run(tier, seed, rep, only=None):
              "fresh copy of a configured RF24 pair; every pipe 0..5 x address width x data rate x CRC/auto-ack x ask_no_ack x "
              "channel x SPI front at 3 lengths; every list/tuple/sequence of 1..3 payloads over 3 lengths; per-pipe static length vectors x pipe x boundary "
              "lengths; bursts of 1..5 write(write_only=True) calls before CE is raised (peer must get exactly the accepted ones); two directions: the peer's payload waits unread in the "
-             "transmitter's RX FIFO during send(single|list|tuple, send_only=True) and is read afterwards. A case is "
+             "transmitter's RX FIFO during send(single|list|tuple, send_only=True) and is read afterwards; receiver-side histories (an earlier payload looked at with any() and flushed / read with an explicit length, any() on an empty FIFO) x the application idiom without any(). A case is "
              "non-trivial when the peer received at least one payload or a ValueError was due; distinct = distinct "
              "(configuration, case). states = configured initial states + distinct non-trivial result cases; transitions = executions.",
         bounds=dict(lengths="0..40", static_lengths="1..32", list_depth=3, channels="0,76,125" if tier == "quick" else "0..125", **b),
